@@ -11,6 +11,12 @@ from ..astutil import (
 )
 from ..report import Registry, chain, sub
 from ._helpers_rules_a import Unsupported, self_attr
+from ._helpers_rob_g1 import ast_atoms, resolve_callee
+from ._helpers_rob_e2 import (
+    canon_atom, dominating_atoms, edge_ok_under, expand, expand_bool, expand_strings, inline_helpers, len_guard, local_defs,
+    norm_fn,
+    tri, value_arms,
+)
 
 R = Registry(
     "C21",
@@ -116,120 +122,228 @@ def _strlen_bound(e, assumptions):
     raise Unsupported(f"string length of `{unparse(e)}`")
 
 
-def _guarded_assign(fn, target_pred, atom_pred, polarity=True):
-    """assignments whose target satisfies target_pred and whose lexical guards contain an atom accepted by atom_pred."""
-    pm = fn.module.parents()
-    out = []
-    for n in walk_local(fn.node):
-        if isinstance(n, ast.Assign) and len(n.targets) == 1 and target_pred(n.targets[0]):
-            atoms = guard_atoms(lexical_guards(pm, n, stop=fn.node))
-            for a, pol in atoms:
-                if pol == polarity and atom_pred(a):
-                    out.append((n, a))
+def _ti_normal(ctx):
+    """SQLCompiler._truncated_identifier with helper methods of the compiler it calls at statement level inlined
+    (the inverse of 'extract method') and pure local aliases resolved."""
+    f = ctx.func(f"{COMP}::SQLCompiler._truncated_identifier")
+    return norm_fn(ctx, inline_helpers(ctx, f, depth=2))
+
+
+def _computed_names(t):
+    """local name -> the statement that hands it out: what `_truncated_identifier` (aliases resolved) returns by name,
+    or memoises by name (and returns through the memo table)."""
+    out = {r_.value.id: r_ for r_ in returns_of(t.node) if isinstance(r_.value, ast.Name)}
+    for n in walk_local(t.node):
+        if isinstance(n, ast.Assign) and isinstance(n.targets[0], ast.Subscript) and dotted(n.targets[0].value) == "self.truncated_names" \
+                and isinstance(n.value, ast.Name):
+            out.setdefault(n.value.id, n)
     return out
 
 
-_LEN_GT = re.compile(r"^len\((?P<x>[\w\.]+)\) > (?P<rhs>.+)$")
+def _single_name_assigns(fnode, names):
+    return [n for n in walk_local(fnode) if isinstance(n, ast.Assign) and len(n.targets) == 1
+            and isinstance(n.targets[0], ast.Name) and n.targets[0].id in names]
+
+
+def _len_guards(atoms):
+    """[(x text, L as Lin, polarity, canonical key)] of the `len(x) > L` atoms (any spelling) among (expr, pol) atoms."""
+    out = []
+    for e, pol in atoms:
+        lg = len_guard(e)
+        if lg is None:
+            continue
+        x, L, shift, p = lg
+        try:
+            lin = _lin(L, []) + Lin({1: shift})
+        except Unsupported:
+            continue
+        out.append((x, lin, pol == p, canon_atom(e)[0]))
+    return out
+
+
+def _test_atoms_of(fnode):
+    """atoms (expr, True) of every test of the function (if / while / conditional expression), boolean locals expanded."""
+    defs = local_defs(fnode)
+    out = []
+    for n in walk_local(fnode):
+        if isinstance(n, (ast.If, ast.While, ast.IfExp)):
+            out.extend((e, True) for e, _pol in ast_atoms(expand_bool(n.test, defs), True))
+            out.extend((e, True) for e, _pol in ast_atoms(expand_bool(n.test, defs), False))
+    return out
+
+
+def _le(lin, limit):
+    """lin <= limit for all values of the symbols (same symbols, constant slack)."""
+    d = lin - limit
+    return not d.symbols() and d.const() <= 0
+
+
+def _facts_when_longer(fnode, x, limit):
+    """truth of the function's own length tests on `x` when len(x) > limit: a test `len(x) > L` with L <= limit holds."""
+    facts = {}
+    for gx, lin, _pol, key in _len_guards(_test_atoms_of(fnode)):
+        if gx == x and _le(lin, limit):
+            facts[key] = True
+    return facts
+
+
+def _arm_refuted(extra, facts):
+    return any(tri(e, facts) is (not pol) for e, pol in extra)
 
 
 @R.rule("C21-R1", floor=8, template="T-TABLE (linear length bound)",
         desc="truncation expressions are statically no longer than their limit; over-long plain names raise "
              "IdentifierError; index/constraint limits are what is passed in; label_length <= max_identifier_length")
 def r1(ctx):
-    f = ctx.func(f"{PREP}._truncate_and_render_maxlen_name")
+    f = inline_helpers(ctx, ctx.func(f"{PREP}._truncate_and_render_maxlen_name"), skip=("quote",))
     p_name, p_max = f.params[1], f.params[2]
-    hits = _guarded_assign(f, lambda t: isinstance(t, ast.Name) and t.id == p_name,
-                           lambda a: bool(_LEN_GT.match(a)) and _LEN_GT.match(a)["x"] == p_name and _LEN_GT.match(a)["rhs"] == p_max)
-    ctx.require(len(hits) == 1, f"{f.key}: expected one re-assignment of `{p_name}` under `len({p_name}) > {p_max}`")
-    st, _ = hits[0]
-    assumptions = []
-    bound = _strlen_bound(st.value, assumptions)
-    slack = bound - Lin({p_max: 1, 1: 0})
-    ok = not slack.symbols() and slack.const() <= 0
-    ctx.check(ok, f.key + ":bound",
-              f"truncated name `{unparse(st.value)}` has length bound {bound}, which is not <= {p_max}",
-              f"len <= {bound} <= {p_max} (assuming {', '.join(assumptions) or 'nothing'})", f.loc)
+    g = ctx.cfg(f)
+    defs = local_defs(f.node)
+    limit = Lin({p_max: 1, 1: 0})
+    # every re-assignment of the name parameter: its arms (conditional expressions split) either leave the name alone
+    # or build a new one, whose length is bounded statically
+    arms = [(st, val, extra) for st in _single_name_assigns(f.node, {p_name}) for val, extra in value_arms(st.value)]
+    trunc = [(st, val, extra) for st, val, extra in arms if not (isinstance(val, ast.Name) and val.id == p_name)]
+    ctx.require(trunc, f"{f.key}: `{p_name}` is never re-assigned to a truncated form")
+    problems, details, assumptions = [], [], []
+    for st, val, _extra in trunc:
+        v = expand_strings(f.node, val, keep={p_name})
+        bound = _strlen_bound(v, assumptions)
+        if not _le(bound, limit):
+            problems.append(f"truncated name `{unparse(v)}` has length bound {bound}, which is not <= {p_max}")
+        details.append(f"len <= {bound} <= {p_max}")
+    # ... and a _truncated_label longer than the limit never leaves un-truncated: with len(name) > max_ (which decides
+    # every `len(name) > L`, L <= max_, test of the function, however it is spelled) all paths pass a re-assignment
+    tl_keys = {canon_atom(e)[0] for e, _ in _test_atoms_of(f.node)
+               if isinstance(e, ast.Call) and dotted(e.func) == "isinstance" and len(e.args) == 2
+               and isinstance(e.args[0], ast.Name) and e.args[0].id == p_name and "_truncated_label" in unparse(e.args[1])}
+    ctx.require(tl_keys, f"{f.key}: no isinstance({p_name}, _truncated_label) test")
+    facts = dict(_facts_when_longer(f.node, p_name, limit), **{k: True for k in tl_keys})
+    covering = [st for st in {id(st): st for st, _v, _e in trunc}.values()
+                if all(not (isinstance(val, ast.Name) and val.id == p_name) or _arm_refuted(extra, facts)
+                       for st2, val, extra in arms if st2 is st)]
+    w = g.must_pass([g.entry], [g.exit], [i for st in covering for i in g.nodes_for(st)], edge_ok=edge_ok_under(g, facts, defs))
+    if w is not None:
+        problems.append(f"a _truncated_label longer than {p_max} can be returned without being truncated")
+    ctx.check(not problems, f.key + ":bound", "; ".join(problems),
+              f"{'; '.join(details)} (assuming {', '.join(assumptions) or 'nothing'})", f.loc, w)
     # truncation applies to _truncated_label only; everything else is validated
-    pm = f.module.parents()
-    atoms = guard_atoms(lexical_guards(pm, st, stop=f.node))
-    is_trunc = [a for a, pol in atoms if pol and a.startswith(f"isinstance({p_name},") and "_truncated_label" in a]
-    vcalls = [c for c in calls_in(f.node) if (call_name(c) or "").endswith("dialect.validate_identifier")]
-    v_ok = False
-    for c in vcalls:
-        ca = guard_atoms(lexical_guards(pm, c, stop=f.node))
-        if is_trunc and (is_trunc[0], False) in ca and c.args and isinstance(c.args[0], ast.Name) and c.args[0].id == p_name:
-            v_ok = True
-    ctx.check(bool(is_trunc) and v_ok, f.key + ":validate",
+    nfacts = {k: False for k in tl_keys}
+    ok_plain = edge_ok_under(g, nfacts, defs)
+    vnodes = [i for c in calls_in(f.node) if (dotted(expand(f.node, c.func)) or "").endswith("dialect.validate_identifier")
+              and c.args and isinstance(c.args[0], ast.Name) and c.args[0].id == p_name
+              for i in g.nodes_containing(c)]
+    w = g.must_pass([g.entry], [g.exit], vnodes, edge_ok=ok_plain) if vnodes else ["no dialect.validate_identifier(name) call"]
+    reach_plain = g.reachable([g.entry], edge_ok=ok_plain)
+    truncates_plain = [st for st, _v, extra in trunc if not _arm_refuted(extra, nfacts) and set(g.nodes_for(st)) & reach_plain]
+    ctx.check(w is None and not truncates_plain, f.key + ":validate",
               "names that are not _truncated_label are not passed to dialect.validate_identifier() (an over-long "
-              "explicit name would be emitted as is)", "non-truncatable names validated", f.loc)
+              "explicit name would be emitted as is)" if w is not None else
+              "a name that is not a _truncated_label can be truncated", "non-truncatable names validated", f.loc,
+              w if isinstance(w, list) else None)
     v = ctx.func("engine/default.py::DefaultDialect.validate_identifier")
     p_ident = v.params[1]
-    g = ctx.cfg(v)
-    tests = [n for n in walk_local(v.node) if isinstance(n, ast.If)]
-    ok = False
-    for t in tests:
-        m = _LEN_GT.match(unparse(t.test))
-        if m and m["x"] == p_ident and m["rhs"] == "self.max_identifier_length":
-            ok = any(raised_name(r_) in ("exc.IdentifierError", "IdentifierError") for r_ in ast.walk(t) if isinstance(r_, ast.Raise))
+    gv = ctx.cfg(v)
+    vfacts = _facts_when_longer(v.node, p_ident, Lin({"self.max_identifier_length": 1, 1: 0}))
+    reach = gv.reachable([gv.entry], edge_ok=edge_ok_under(gv, vfacts, local_defs(v.node)))
+    raised = [n for n in walk_local(v.node) if isinstance(n, ast.Raise) and set(gv.nodes_for(n)) & reach]
+    ok = gv.exit not in reach and bool(raised) and all(raised_name(r_) in ("exc.IdentifierError", "IdentifierError") for r_ in raised)
     ctx.check(ok, v.key, "validate_identifier does not raise IdentifierError when len(ident) > self.max_identifier_length",
               "raises IdentifierError beyond max_identifier_length", v.loc)
     for meth, attr in (("truncate_and_render_index_name", "max_index_name_length"),
                        ("truncate_and_render_constraint_name", "max_constraint_name_length")):
         m = ctx.func(f"{PREP}.{meth}")
-        binds = {n: val for n, val, st_ in name_stores(m.node) if val is not None}
         calls = [c for c in calls_in(m.node) if dotted(c.func) == "self._truncate_and_render_maxlen_name"]
         ctx.require(len(calls) == 1, f"{m.key}: expected one call of _truncate_and_render_maxlen_name")
-        arg = calls[0].args[1] if len(calls[0].args) > 1 else None
-        val = binds.get(arg.id) if isinstance(arg, ast.Name) else arg
+        arg = calls[0].args[1] if len(calls[0].args) > 1 else next((k.value for k in calls[0].keywords if k.arg == f.params[2]), None)
+        val = expand(m.node, arg) if arg is not None else None
         txt = unparse(val) if val is not None else ""
         ok = isinstance(val, ast.BoolOp) and isinstance(val.op, ast.Or) and \
             [unparse(x) for x in val.values] == [f"self.dialect.{attr}", "self.dialect.max_identifier_length"]
         ctx.check(ok, m.key, f"limit passed on is `{txt}`, expected dialect.{attr} or dialect.max_identifier_length",
                   txt, m.loc)
     # SQLCompiler._truncated_identifier
-    t = ctx.func(f"{COMP}::SQLCompiler._truncated_identifier")
-    hits = _guarded_assign(t, lambda x: isinstance(x, ast.Name), lambda a: bool(_LEN_GT.match(a)))
-    returned = {r_.value.id for r_ in returns_of(t.node) if isinstance(r_.value, ast.Name)}
-    hits = [(n, a) for n, a in hits if n.targets[0].id in returned]
-    ctx.require(len(hits) == 1, f"{t.key}: expected one name construction under a `len(x) > limit` test")
-    st, atom = hits[0]
-    m = _LEN_GT.match(atom)
-    src = m["x"]
-    assumptions = []
-    bound = _strlen_bound(st.value, assumptions)
+    t = _ti_normal(ctx)
+    gt = ctx.cfg(t.node)
     limit = Lin({"self.label_length": 1, 1: 0})
-    slack = bound - limit
-    digit_syms = [s for s in slack.symbols() if s.startswith("hexdigits(")]
-    other = slack.symbols() - set(digit_syms)
-    if other or len(digit_syms) != 1 or slack[digit_syms[0]] != 1:
-        ctx.violation(t.key + ":bound", f"truncated label `{unparse(st.value)}` has length bound {bound}, not comparable "
-                                        f"with self.label_length", t.loc)
-    else:
+    # the computed names: what is returned by name, or memoised by name (and returned through the memo table)
+    returned = _computed_names(t)
+    ctx.require(returned, f"{t.key}: no computed name is returned")
+    long_arms, short_arms = [], []   # (statement, value, guard (x, L, key))
+    for st in _single_name_assigns(t.node, set(returned)):
+        base = dominating_atoms(gt, st, t.node)
+        for val, extra in value_arms(st.value):
+            for x, lin, pol, key in _len_guards(base + extra):
+                (long_arms if pol else short_arms).append((st, val, (x, lin, key)))
+    # early-return shape: `if len(x) <= L: ...; return x`
+    for nm, r_ in returned.items():
+        for x, lin, pol, key in _len_guards(dominating_atoms(gt, r_, t.node)):
+            if not pol and not any(st.targets[0].id == nm for st, _v, _g in short_arms if isinstance(st, ast.Assign) and isinstance(st.targets[0], ast.Name)):
+                short_arms.append((r_, r_.value, (x, lin, key)))
+    # default-then-override shape: `n = x` unconditionally, re-assigned under `len(x) > L`
+    for st in _single_name_assigns(t.node, set(returned)):
+        if not any(st is s2 for s2, _v, _g in long_arms + short_arms) and isinstance(st.value, ast.Name):
+            for s2, _v, (x, lin, key) in long_arms:
+                if x == st.value.id and s2.targets[0].id == st.targets[0].id and s2.lineno > st.lineno:
+                    short_arms.append((st, st.value, (x, lin, key)))
+    ctx.require(long_arms, f"{t.key}: expected a name construction under a `len(x) > limit` test")
+    problems, details, assumptions = [], [], []
+    for st, val, (x, lin, key) in long_arms:
+        v = expand_strings(t.node, val, keep={x})
+        bound = _strlen_bound(v, assumptions)
+        slack = bound - limit
+        digit_syms = [s_ for s_ in slack.symbols() if s_.startswith("hexdigits(")]
+        other = slack.symbols() - set(digit_syms)
+        if other or len(digit_syms) != 1 or slack[digit_syms[0]] != 1:
+            problems.append(f"truncated label `{unparse(v)}` has length bound {bound}, not comparable with self.label_length")
+            continue
         # hex(c)[2:] contributes hexdigits(c) + 2 - 2
         room = -slack.const()
-        ctx.check(room >= MIN_COUNTER_DIGITS, t.key + ":bound",
-                  f"truncated label is `{unparse(st.value)}`: it fits label_length only while the counter has <= {room} "
-                  f"hex digit(s) (need >= {MIN_COUNTER_DIGITS})",
-                  f"len <= label_length for counters < 16**{room} (assuming {', '.join(assumptions) or 'nothing'})", t.loc)
+        if room < MIN_COUNTER_DIGITS:
+            problems.append(f"truncated label is `{unparse(v)}`: it fits label_length only while the counter has <= {room} "
+                            f"hex digit(s) (need >= {MIN_COUNTER_DIGITS})")
+        details.append(f"len <= label_length for counters < 16**{room}")
+    ctx.check(not problems, t.key + ":bound", "; ".join(problems),
+              f"{'; '.join(details)} (assuming {', '.join(assumptions) or 'nothing'})", t.loc)
     # the untruncated arm returns the mapped name itself, whose length the guard bounds by the same limit
-    rhs = _lin(ast.parse(m["rhs"], mode="eval").body, [])
-    short_ok = not (rhs - limit).symbols() and (rhs - limit).const() <= 0
-    pm = t.module.parents()
-    else_assign = [n for n in walk_local(t.node) if isinstance(n, ast.Assign) and len(n.targets) == 1
-                   and isinstance(n.targets[0], ast.Name) and n.targets[0].id == st.targets[0].id and n is not st]
-    ok = short_ok and len(else_assign) == 1 and unparse(else_assign[0].value) == src \
-        and (atom, False) in guard_atoms(lexical_guards(pm, else_assign[0], stop=t.node))
+    ok = bool(short_arms)
+    detail = ""
+    for st, val, (x, lin, key) in short_arms:
+        same = unparse(expand_strings(t.node, val, keep={x})) == x
+        ok = ok and same and _le(lin, limit)
+        detail = f"len({x}) <= {lin} <= label_length"
+    thr = "; ".join(sorted({str(lin) for _s, _v, (_x, lin, _k) in short_arms + long_arms}))
     ctx.check(ok, t.key + ":short-arm",
-              f"names not longer than `{m['rhs']}` are not passed through unchanged / the threshold exceeds label_length",
-              f"len({src}) <= {m['rhs']} <= label_length", t.loc)
+              f"names not longer than `{thr}` are not passed through unchanged / the threshold exceeds label_length",
+              detail, t.loc)
     # label_length <= max_identifier_length enforced by the dialect
     d = ctx.func("engine/default.py::DefaultDialect.initialize")
+    gd = ctx.cfg(d)
     ok = False
     for n in walk_local(d.node):
-        if isinstance(n, ast.If) and "self.label_length > self.max_identifier_length" in unparse(n.test):
-            ok = any(raised_name(r_) in ("exc.ArgumentError", "ArgumentError") for r_ in ast.walk(n) if isinstance(r_, ast.Raise))
+        if isinstance(n, ast.Raise) and raised_name(n) in ("exc.ArgumentError", "ArgumentError"):
+            for x, lin, pol, key in _attr_gt_guards(dominating_atoms(gd, n, d.node)):
+                if pol and x == "self.label_length" and lin == "self.max_identifier_length":
+                    ok = True
     ctx.check(ok, d.key + ":label_length", "label_length > max_identifier_length is no longer rejected with ArgumentError",
               "label_length <= max_identifier_length enforced", d.loc)
+
+
+def _attr_gt_guards(atoms):
+    """[(a text, b text, polarity, key)] for atoms `a > b` / `b < a` / `not a <= b` between plain attribute chains."""
+    out = []
+    for e, pol in atoms:
+        if isinstance(e, ast.Compare) and len(e.ops) == 1 and dotted(e.left) and dotted(e.comparators[0]):
+            l, r_, op = dotted(e.left), dotted(e.comparators[0]), type(e.ops[0])
+            if op is ast.Gt:
+                out.append((l, r_, pol, unparse(e)))
+            elif op is ast.Lt:
+                out.append((r_, l, pol, unparse(e)))
+            elif op is ast.LtE:
+                out.append((l, r_, not pol, unparse(e)))
+            elif op is ast.GtE:
+                out.append((r_, l, not pol, unparse(e)))
+    return out
 
 
 # ------------------------------------------------------------------------------------------ R2
@@ -259,12 +373,18 @@ def r2(ctx):
         seen.add(f.key)
         ctx.functions_analysed.add(f.key)
         bad = []
-        for c in calls_in(f.node, into_nested=True):
-            nm = (call_name(c) or "").rsplit(".", 1)[-1]
-            if nm in NONDETERMINISTIC:
-                bad.append(unparse(c)[:50])
+        scan = [f]
+        for c in calls_in(f.node, into_nested=True):      # helpers split off the function (same module), one level
+            callee = resolve_callee(ctx, f, c)
+            if callee is not None and callee.module is f.module and callee.key not in {x.key for x in scan}:
+                scan.append(callee)
+        for fn in scan:
+            for c in calls_in(fn.node, into_nested=True):
+                nm = (call_name(c) or "").rsplit(".", 1)[-1]
+                if nm in NONDETERMINISTIC:
+                    bad.append(unparse(c)[:50] + ("" if fn is f else f" (in {fn.qualname})"))
         ctx.check(not bad, f.key + ":deterministic", f"calls a run-dependent source: {bad}", "", f.loc, nontrivial=False)
-    f = ctx.func(f"{PREP}._truncate_and_render_maxlen_name")
+    f = inline_helpers(ctx, ctx.func(f"{PREP}._truncate_and_render_maxlen_name"), skip=("quote",))
     md5 = [c for c in calls_in(f.node) if (call_name(c) or "").endswith("md5_hex")]
     ctx.require(md5, f"{f.key}: no md5_hex digest")
     p_name = f.params[1]
@@ -283,9 +403,11 @@ def r2(ctx):
              "every path after the read; result memoised under (ident_class, name) on every path and looked up first; "
              "_truncate_bindparam memoises per bind parameter")
 def r3(ctx):
-    t = ctx.func(f"{COMP}::SQLCompiler._truncated_identifier")
+    from ..cfg import no_exc
+    # pure local aliases (`names = self.truncated_names`, `key = (ident_class, name)`) are resolved first
+    t = _ti_normal(ctx)
     p_class, p_name = t.params[1], t.params[2]
-    g = ctx.cfg(t)
+    g = ctx.cfg(t.node)
     reads = [n for n in walk_local(t.node) if isinstance(n, ast.Assign) and isinstance(n.value, ast.Call)
              and dotted(n.value.func) == "self._truncated_counters.get"]
     ctx.require(len(reads) == 1 and isinstance(reads[0].targets[0], ast.Name), f"{t.key}: counter read not found")
@@ -295,10 +417,10 @@ def r3(ctx):
     ctx.check(len(a) == 2 and isinstance(a[0], ast.Name) and a[0].id == p_class and isinstance(a[1], ast.Constant)
               and isinstance(a[1].value, int), t.key + ":counter-read",
               f"counter is read as `{unparse(rd.value)}`, not per `{p_class}` with an integer start", unparse(rd.value), t.loc)
-    # embedded
-    name_asg = [n for n in walk_local(t.node) if isinstance(n, ast.Assign) and n is not rd
-                and any(isinstance(x, ast.Name) and x.id == cvar for x in ast.walk(n.value))
-                and isinstance(n.targets[0], ast.Name)]
+    # embedded: the counter flows (through string-building locals) into a returned name
+    ret_names = set(_computed_names(t))
+    name_asg = [n for n in _single_name_assigns(t.node, ret_names) if n is not rd
+                and any(isinstance(x, ast.Name) and x.id == cvar for x in ast.walk(expand_strings(t.node, n.value)))]
     ctx.check(bool(name_asg), t.key + ":counter-embedded", "the counter value is not part of the truncated name",
               unparse(name_asg[0].value)[:70] if name_asg else "", t.loc)
     # stored back incremented on every path after the read
@@ -309,53 +431,71 @@ def r3(ctx):
                   and {unparse(n.value.left), unparse(n.value.right)} == {cvar, "1"}]
     w = None
     if good_store:
-        from ..cfg import no_exc
         w = g.must_pass([i for i in g.nodes_for(rd)], [g.exit], [i for s in good_store for i in g.nodes_for(s)], edge_ok=no_exc)
     ctx.check(bool(good_store) and w is None, t.key + ":counter-advance",
               "the counter is not stored back as counter + 1 on every path after it was used "
               "(two elements would receive the same truncated name)", f"{len(good_store)} store(s), all paths", t.loc, w)
     # memo
+    key_ok = lambda s: isinstance(s, ast.Tuple) and [unparse(e) for e in s.elts] == [p_class, p_name]
+    hit_starts, miss_starts, test_nodes = _memo_test(g, t.node, "self.truncated_names", key_ok)
+    memo_ret = [i for r_ in returns_of(t.node) if isinstance(r_.value, ast.Subscript) and dotted(r_.value.value) == "self.truncated_names"
+                and key_ok(r_.value.slice) for i in g.nodes_for(r_)]
+    # consulted first: a hit returns the memoised name, and nothing is computed (counter read) before the lookup
+    early = bool(test_nodes) and bool(memo_ret) \
+        and g.must_pass([i for i in hit_starts if i not in memo_ret], [g.exit], memo_ret, edge_ok=no_exc) is None \
+        and not (set(g.nodes_for(rd)) & g.reachable(hit_starts, edge_ok=no_exc)) \
+        and all(g.always_preceded(i, test_nodes) is None for i in g.nodes_for(rd))
+    ctx.check(early, t.key + ":memo-lookup", "the memo table is not consulted first under the key (ident_class, name)",
+              "memo lookup first", t.loc)
     memo_store = [n for n in walk_local(t.node) if isinstance(n, ast.Assign) and isinstance(n.targets[0], ast.Subscript)
                   and dotted(n.targets[0].value) == "self.truncated_names"]
-    key_ok = lambda s: isinstance(s, ast.Tuple) and [unparse(e) for e in s.elts] == [p_class, p_name]
-    lookups = [n for n in walk_local(t.node) if isinstance(n, ast.If) and isinstance(n.test, ast.Compare)
-               and isinstance(n.test.ops[0], ast.In) and dotted(n.test.comparators[0]) == "self.truncated_names"
-               and key_ok(n.test.left)]
-    early = bool(lookups) and any(isinstance(x, ast.Return) and isinstance(x.value, ast.Subscript) and key_ok(x.value.slice)
-                                  for x in lookups[0].body)
-    ctx.check(early and t.node.body and (lookups[0] is [s for s in t.node.body if not isinstance(s, ast.Expr)][0]),
-              t.key + ":memo-lookup", "the memo table is not consulted first under the key (ident_class, name)",
-              "memo lookup first", t.loc)
     ms_ok = [n for n in memo_store if key_ok(n.targets[0].slice)]
     w = None
-    if ms_ok and lookups:
-        from ..cfg import no_exc
-        test_nodes = g.nodes_for(lookups[0])
-        starts = [b for tn in test_nodes for b, lab in g.succ[tn] if lab == "false"]
-        w = g.must_pass(starts, [g.exit], [i for s in ms_ok for i in g.nodes_for(s)], edge_ok=no_exc)
+    if ms_ok and test_nodes:
+        through = [i for s in ms_ok for i in g.nodes_for(s)]
+        w = g.must_pass([i for i in miss_starts if i not in through], [g.exit], through, edge_ok=no_exc)
         # and what is stored is what is returned
         stored = {unparse(n.value) for n in ms_ok}
         rets = {unparse(r_.value) for r_ in returns_of(t.node) if not isinstance(r_.value, ast.Subscript)}
         if rets - stored:
             w = [f"returns {sorted(rets)} but memoises {sorted(stored)}"]
-    ctx.check(bool(ms_ok) and w is None, t.key + ":memo-store",
+    ctx.check(bool(ms_ok) and bool(test_nodes) and w is None, t.key + ":memo-store",
               "a computed name can be returned without being memoised under (ident_class, name): the same element "
               "would get a new counter value on its next rendering", "memoised on every computing path", t.loc, w)
-    b = ctx.func(f"{COMP}::SQLCompiler._truncate_bindparam")
+    b = norm_fn(ctx, ctx.func(f"{COMP}::SQLCompiler._truncate_bindparam"))
     p_b = b.params[1]
-    gb = ctx.cfg(b)
-    look = [n for n in walk_local(b.node) if isinstance(n, ast.If) and isinstance(n.test, ast.Compare)
-            and isinstance(n.test.ops[0], ast.In) and dotted(n.test.comparators[0]) == "self.bind_names"
-            and unparse(n.test.left) == p_b]
+    gb = ctx.cfg(b.node)
+    _hit, miss, tn = _memo_test(gb, b.node, "self.bind_names", lambda s_: unparse(s_) == p_b)
     st = [n for n in walk_local(b.node) if isinstance(n, ast.Assign) and isinstance(n.targets[0], ast.Subscript)
           and dotted(n.targets[0].value) == "self.bind_names" and unparse(n.targets[0].slice) == p_b]
     w = None
-    if look and st:
-        from ..cfg import no_exc
-        starts = [x for tn in gb.nodes_for(look[0]) for x, lab in gb.succ[tn] if lab == "false"]
-        w = gb.must_pass(starts, [gb.exit], [i for s in st for i in gb.nodes_for(s)], edge_ok=no_exc)
-    ctx.check(bool(look) and bool(st) and w is None, b.key,
+    if tn and st:
+        through = [i for s_ in st for i in gb.nodes_for(s_)]
+        w = gb.must_pass([i for i in miss if i not in through], [gb.exit], through, edge_ok=no_exc)
+    ctx.check(bool(tn) and bool(st) and w is None, b.key,
               "bind names are not memoised per bind parameter on every path", "memoised in bind_names", b.loc, w)
+
+
+def _memo_test(g, fnode, table, key_ok):
+    """(successors on a memo hit, successors on a miss, test nodes) of the branch `<key> in <table>` -- spelled
+    `in` / `not in` / `not (.. in ..)`, as `if` or `while`; compound tests are not taken for a lookup."""
+    hit, miss, tests = [], [], []
+    for n in g.nodes:
+        if n.kind != "test" or not hasattr(n.stmt, "test"):
+            continue
+        e, pol = n.stmt.test, True
+        while isinstance(e, ast.UnaryOp) and isinstance(e.op, ast.Not):
+            e, pol = e.operand, not pol
+        if not (isinstance(e, ast.Compare) and len(e.ops) == 1 and isinstance(e.ops[0], (ast.In, ast.NotIn))
+                and dotted(e.comparators[0]) == table and key_ok(e.left)):
+            continue
+        if isinstance(e.ops[0], ast.NotIn):
+            pol = not pol
+        tests.append(n.id)
+        for b_, lab in g.succ[n.id]:
+            if lab in ("true", "false"):
+                (hit if (lab == "true") == pol else miss).append(b_)
+    return hit, miss, tests
 
 
 # ------------------------------------------------------------------------------------------ R4
@@ -415,21 +555,34 @@ def r4(ctx):
                                         f"(KeyError at constraint creation)", attr, gi.loc)
     # conv bypass
     f = ctx.func(f"{NAMING}::_constraint_name_for_table")
-    pm = f.module.parents()
+    g = ctx.cfg(f)
     rets = returns_of(f.node)
-    first = None
-    for r_ in rets:
-        atoms = guard_atoms(lexical_guards(pm, r_, stop=f.node))
-        if any(a.replace(" ", "") == "isinstance(const.name,conv)" and pol for a, pol in atoms):
-            first = r_
-    ctx.check(first is not None and unparse(first.value) == "const.name", f.key + ":conv-bypass",
+
+    def conv_atom(e):
+        e2 = expand(f.node, e)
+        return isinstance(e2, ast.Call) and dotted(e2.func) == "isinstance" and len(e2.args) == 2 \
+            and unparse(e2.args[0]) == "const.name" and dotted(e2.args[1]) == "conv"
+
+    def atoms_at(r_):
+        """branch outcomes that dominate the return (early returns, nested / compound / inverted tests alike)"""
+        return [(e, pol) for e, pol in dominating_atoms(g, r_, f.node)]
+
+    # a name already wrapped in conv() is returned as it is: with isinstance(const.name, conv) true, every path
+    # to the exit ends in `return const.name`
+    conv_keys = {canon_atom(e)[0] for e, _ in _test_atoms_of(f.node) if conv_atom(e)}
+    ctx.require(conv_keys, f"{f.key}: no isinstance(const.name, conv) test")
+    as_is = [r_ for r_ in rets if r_.value is not None and unparse(expand(f.node, r_.value)) == "const.name"]
+    reach = g.reachable([g.entry], edge_ok=edge_ok_under(g, {k: True for k in conv_keys}, local_defs(f.node)))
+    other = [r_ for r_ in rets if r_ not in as_is and set(g.nodes_for(r_)) & reach]
+    ctx.check(bool(as_is) and not other and g.exit in reach, f.key + ":conv-bypass",
               "a name already wrapped in conv() is not returned unchanged", "isinstance(const.name, conv) -> const.name", f.loc)
-    conv_rets = [r_ for r_ in rets if isinstance(r_.value, ast.Call) and call_name(r_.value) == "conv"]
+    conv_rets = [r_ for r_ in rets if r_.value is not None and isinstance(expand(f.node, r_.value), ast.Call)
+                 and call_name(expand(f.node, r_.value)) == "conv"]
     ok = bool(conv_rets)
     for r_ in conv_rets:
-        atoms = guard_atoms(lexical_guards(pm, r_, stop=f.node))
-        ok = ok and any(a.replace(" ", "") == "isinstance(const.name,conv)" and not pol for a, pol in atoms)
-        v = r_.value.args[0] if r_.value.args else None
+        ok = ok and any(conv_atom(e) and not pol for e, pol in atoms_at(r_))
+        val = expand(f.node, r_.value)
+        v = val.args[0] if val.args else None
         ok = ok and isinstance(v, ast.BinOp) and isinstance(v.op, ast.Mod) and isinstance(v.right, ast.Call) \
             and call_name(v.right) == "ConventionDict"
     ctx.check(ok, f.key + ":convention-result",
@@ -844,3 +997,159 @@ R.mutant("benign-dispatch-constraint-arm-first", COMP,
              '        if constraint.__visit_name__ != "index":\n            return self.truncate_and_render_constraint_name(\n'
              '                name, _alembic_quote=_alembic_quote\n            )\n'
              '        return self.truncate_and_render_index_name(\n            name, _alembic_quote=_alembic_quote\n        )\n'), None)
+
+# ---- robustify round (rob-E2): stored benign refactors rfE_16/rfE_17 as families + variants of my own -------------
+_CNT = ('    if isinstance(const.name, conv):\n        return const.name\n    elif (\n        convention is not None\n'
+        '        and not isinstance(const.name, conv)\n        and (\n            const.name is None\n'
+        '            or "constraint_name" in convention\n            or const.name is _NONE_NAME\n        )\n    ):\n'
+        '        return conv(\n            convention\n            % ConventionDict(const, table, metadata.naming_convention)\n        )\n'
+        '    elif convention is _NONE_NAME:\n        return None\n')
+
+
+def _cnt_sequential(guard, result):
+    return sub(_CNT, '    if isinstance(const.name, conv):\n        return const.name\n\n    if ' + guard + ':\n        if (\n'
+                     '            const.name is None\n            or "constraint_name" in convention\n            or const.name is _NONE_NAME\n'
+                     '        ):\n            tokens = ConventionDict(const, table, metadata.naming_convention)\n'
+                     '            return ' + result + '\n\n    if convention is _NONE_NAME:\n        return None\n\n    return None\n')
+
+
+R.mutant("benign-rfE16-convention-sequential-ifs", NAMING,
+         chain(_cnt_sequential("convention is not None and not isinstance(const.name, conv)", "conv(convention % tokens)"),
+               sub("            return dict_[super_]\n    else:\n        return None\n", "            return dict_[super_]\n\n    return None\n")), None)
+R.mutant("benign-convention-redundant-conv-test-dropped", NAMING,
+         _cnt_sequential("convention is not None", "conv(convention % tokens)"), None)
+R.mutant("r4-sequential-ifs-result-not-wrapped-in-conv", NAMING,
+         _cnt_sequential("convention is not None and not isinstance(const.name, conv)", "convention % tokens"), "C21-R4")
+R.mutant("r4-sequential-ifs-conv-name-gets-convention", NAMING,
+         chain(_cnt_sequential("convention is not None", "conv(convention % tokens)"),
+               sub("    if isinstance(const.name, conv):\n        return const.name\n\n    if convention is not None:\n",
+                   "    if isinstance(const.name, conv) and convention is None:\n        return const.name\n\n    if convention is not None:\n")),
+         "C21-R4")
+
+_TI = ('        if (ident_class, name) in self.truncated_names:\n            return self.truncated_names[(ident_class, name)]\n\n'
+       '        anonname = name.apply_map(self.anon_map)\n\n        if len(anonname) > self.label_length - 6:\n'
+       '            counter = self._truncated_counters.get(ident_class, 1)\n            truncname = (\n'
+       '                anonname[0 : max(self.label_length - 6, 0)]\n                + "_"\n                + hex(counter)[2:]\n            )\n'
+       '            self._truncated_counters[ident_class] = counter + 1\n        else:\n            truncname = anonname\n'
+       '        self.truncated_names[(ident_class, name)] = truncname\n        return truncname\n')
+
+
+def _ti_aliased(key="(ident_class, name)", short_test="len(anonname) <= self.label_length - 6", cut="self.label_length - 6",
+                store="        truncated_names[memo_key] = truncname\n"):
+    return sub(_TI, '        memo_key = ' + key + '\n        truncated_names = self.truncated_names\n'
+                    '        if memo_key in truncated_names:\n            return truncated_names[memo_key]\n\n'
+                    '        anonname = name.apply_map(self.anon_map)\n\n        if ' + short_test + ':\n'
+                    '            truncname = anonname\n        else:\n'
+                    '            counter = self._truncated_counters.get(ident_class, 1)\n'
+                    '            prefix = anonname[0 : max(' + cut + ', 0)]\n'
+                    '            truncname = prefix + "_" + hex(counter)[2:]\n'
+                    '            self._truncated_counters[ident_class] = counter + 1\n' + store + '        return truncname\n')
+
+
+R.mutant("benign-rfE17-truncated-identifier-aliases-inverted", COMP, _ti_aliased(), None)
+R.mutant("r3-aliased-memo-store-dropped", COMP, _ti_aliased(store=""), "C21-R3")
+R.mutant("r3-aliased-memo-key-without-class", COMP, _ti_aliased(key="(name, name)"), "C21-R3")
+R.mutant("r1-aliased-prefix-too-long", COMP, _ti_aliased(cut="self.label_length - 3"), "C21-R1")
+R.mutant("r1-inverted-test-threshold-above-label-length", COMP,
+         _ti_aliased(short_test="len(anonname) <= self.label_length + 2"), "C21-R1")
+R.mutant("benign-length-test-operands-flipped", COMP,
+         sub("        if len(anonname) > self.label_length - 6:\n", "        if self.label_length - 6 < len(anonname):\n"), None)
+
+
+def _ti_early(short_store="            self.truncated_names[(ident_class, name)] = anonname\n"):
+    return sub(_TI, '        if (ident_class, name) in self.truncated_names:\n            return self.truncated_names[(ident_class, name)]\n\n'
+                    '        anonname = name.apply_map(self.anon_map)\n\n        if len(anonname) <= self.label_length - 6:\n'
+                    + short_store + '            return anonname\n\n'
+                    '        counter = self._truncated_counters.get(ident_class, 1)\n'
+                    '        truncname = anonname[0 : max(self.label_length - 6, 0)] + "_" + hex(counter)[2:]\n'
+                    '        self._truncated_counters[ident_class] = counter + 1\n'
+                    '        self.truncated_names[(ident_class, name)] = truncname\n        return truncname\n')
+
+
+R.mutant("benign-short-name-early-return", COMP, _ti_early(), None)
+R.mutant("r3-early-return-short-name-not-memoised", COMP, _ti_early(short_store=""), "C21-R3")
+R.mutant("benign-memo-lookup-not-in-single-return", COMP,
+         sub(_TI, '        if (ident_class, name) not in self.truncated_names:\n            anonname = name.apply_map(self.anon_map)\n'
+                  '            if len(anonname) > self.label_length - 6:\n'
+                  '                counter = self._truncated_counters.get(ident_class, 1)\n'
+                  '                truncname = anonname[0 : max(self.label_length - 6, 0)] + "_" + hex(counter)[2:]\n'
+                  '                self._truncated_counters[ident_class] = counter + 1\n            else:\n                truncname = anonname\n'
+                  '            self.truncated_names[(ident_class, name)] = truncname\n'
+                  '        return self.truncated_names[(ident_class, name)]\n'), None)
+R.mutant("r3-memo-lookup-not-in-counter-read-before-lookup", COMP,
+         sub(_TI, '        counter = self._truncated_counters.get(ident_class, 1)\n'
+                  '        self._truncated_counters[ident_class] = counter + 1\n'
+                  '        if (ident_class, name) not in self.truncated_names:\n            anonname = name.apply_map(self.anon_map)\n'
+                  '            if len(anonname) > self.label_length - 6:\n'
+                  '                truncname = anonname[0 : max(self.label_length - 6, 0)] + "_" + hex(counter)[2:]\n'
+                  '            else:\n                truncname = anonname\n'
+                  '            self.truncated_names[(ident_class, name)] = truncname\n'
+                  '        return self.truncated_names[(ident_class, name)]\n'), "C21-R3")
+
+_ML = ('        if isinstance(name, elements._truncated_label):\n            if len(name) > max_:\n'
+       '                name = name[0 : max_ - 8] + "_" + util.md5_hex(name)[-4:]\n        else:\n'
+       '            self.dialect.validate_identifier(name)\n\n        if not _alembic_quote:\n            return name\n'
+       '        else:\n            return self.quote(name)\n')
+
+
+def _ml_inverted(suffix="util.md5_hex(name)[-4:]", test="len(name) > max_"):
+    return sub(_ML, '        if not isinstance(name, elements._truncated_label):\n            self.dialect.validate_identifier(name)\n'
+                    '        elif ' + test + ':\n            hash_suffix = ' + suffix + '\n'
+                    '            name = name[0 : max_ - 8] + "_" + hash_suffix\n\n'
+                    '        if _alembic_quote:\n            return self.quote(name)\n        else:\n            return name\n')
+
+
+R.mutant("benign-rfE17-maxlen-name-inverted-hash-suffix", COMP, _ml_inverted(), None)
+R.mutant("r1-inverted-hash-suffix-too-long", COMP, _ml_inverted(suffix="util.md5_hex(name)[-8:]"), "C21-R1")
+R.mutant("r1-inverted-truncation-threshold-above-limit", COMP, _ml_inverted(test="len(name) > max_ + 4"), "C21-R1")
+R.mutant("r2-inverted-hash-suffix-of-object-id", COMP, _ml_inverted(suffix="util.md5_hex(str(id(name)))[-4:]"), "C21-R2")
+
+
+def _ml_bool_local(second="        elif not is_label:\n            self.dialect.validate_identifier(name)\n"):
+    return sub(_ML, '        is_label = isinstance(name, elements._truncated_label)\n        too_long = len(name) > max_\n'
+                    '        if is_label and too_long:\n            name = name[0 : max_ - 8] + "_" + util.md5_hex(name)[-4:]\n'
+                    + second + '\n        return name if not _alembic_quote else self.quote(name)\n')
+
+
+R.mutant("benign-maxlen-name-boolean-locals", COMP, _ml_bool_local(), None)
+R.mutant("r1-boolean-locals-validation-only-when-too-long", COMP,
+         _ml_bool_local('        elif not is_label and too_long and max_ > 64:\n            self.dialect.validate_identifier(name)\n'), "C21-R1")
+R.mutant("benign-maxlen-name-conditional-expression", COMP,
+         sub(_ML, '        if isinstance(name, elements._truncated_label):\n'
+                  '            name = name[0 : max_ - 8] + "_" + util.md5_hex(name)[-4:] if len(name) > max_ else name\n'
+                  '        else:\n            self.dialect.validate_identifier(name)\n\n        if not _alembic_quote:\n            return name\n'
+                  '        else:\n            return self.quote(name)\n'), None)
+R.mutant("r1-validate-identifier-early-return-wrong-limit", "engine/default.py",
+         sub("        if len(ident) > self.max_identifier_length:\n            raise exc.IdentifierError(",
+             "        if len(ident) <= self.max_identifier_length + 8:\n            return\n        if True:\n            raise exc.IdentifierError("), "C21-R1")
+R.mutant("benign-validate-identifier-early-return", "engine/default.py",
+         sub("        if len(ident) > self.max_identifier_length:\n            raise exc.IdentifierError(",
+             "        if len(ident) <= self.max_identifier_length:\n            return\n        if True:\n            raise exc.IdentifierError("), None)
+
+
+def _ti_helper(advance="        self._truncated_counters[ident_class] = counter + 1\n", counter="self._truncated_counters.get(ident_class, 1)"):
+    return sub(_TI, '        if (ident_class, name) in self.truncated_names:\n            return self.truncated_names[(ident_class, name)]\n\n'
+                    '        anonname = name.apply_map(self.anon_map)\n\n        if len(anonname) > self.label_length - 6:\n'
+                    '            truncname = self._numbered_prefix(ident_class, anonname)\n        else:\n            truncname = anonname\n'
+                    '        self.truncated_names[(ident_class, name)] = truncname\n        return truncname\n\n'
+                    '    def _numbered_prefix(self, ident_class, anonname):\n        counter = ' + counter + '\n'
+                    '        truncname = anonname[0 : max(self.label_length - 6, 0)] + "_" + hex(counter)[2:]\n'
+                    + advance + '        return truncname\n')
+
+
+R.mutant("benign-counter-logic-in-helper-method", COMP, _ti_helper(), None)
+R.mutant("r3-helper-method-does-not-advance-counter", COMP, _ti_helper(advance=""), "C21-R3")
+R.mutant("r2-helper-method-counter-from-id", COMP, _ti_helper(counter="id(anonname) % 4096"), ("C21-R2", "C21-R3"))
+
+
+def _ml_suffix_helper(digest_of="name", keep="[-4:]"):
+    return chain(sub('                name = name[0 : max_ - 8] + "_" + util.md5_hex(name)[-4:]\n',
+                     '                name = name[0 : max_ - 8] + "_" + self._name_digest(name)\n'),
+                 sub('    def format_index(self, index: Index) -> str:\n',
+                     '    def _name_digest(self, name):\n        return util.md5_hex(' + digest_of + ')' + keep + '\n\n'
+                     '    def format_index(self, index: Index) -> str:\n'))
+
+
+R.mutant("benign-digest-suffix-in-helper-method", COMP, _ml_suffix_helper(), None)
+R.mutant("r1-digest-helper-keeps-eight-characters", COMP, _ml_suffix_helper(keep="[-8:]"), "C21-R1")
+R.mutant("r2-digest-helper-of-type-and-name", COMP, _ml_suffix_helper(digest_of="str(id(name))"), "C21-R2")
